@@ -5,8 +5,8 @@ from .. import common, corpus, irrules
 def run(tier):
     ck = common.Check('C04', tier)
     from . import parts
-    res_all = parts.run_parts(ck, tier, ir_parts=('ir_alloc', 'ir_steal', 'ir_growth'),
-                              rule_filter=lambda p, x: p == 'ir_alloc' or x.rule in ('R04.6', 'R04.3', 'R10.1'))
+    res_all = parts.run_parts(ck, tier, ir_parts=('ir_alloc', 'ir_steal', 'ir_growth', 'ir_ctor'),
+                              rule_filter=lambda p, x: p in ('ir_alloc', 'ir_ctor') or x.rule in ('R04.6', 'R04.3', 'R10.1'))
     res = res_all.get('ir_alloc', [])
     sites = sum(r['res']['sites'] for r in res)
     funs = sum(r['res']['functions'] for r in res)
@@ -33,4 +33,4 @@ def run(tier):
         'handlers, must either store the pointer and the same count into one container\'s (m_data_ptr, m_capacity) '
         'pair, return/hand the pointer over, or pass it to deallocate with the same allocator object and the same '
         'count; in constructor context a commit does not discharge an unwind exit. Decides the pairing clause per '
-        'operation; does not decide exact-once over whole histories. R04.5: only blocks obtained on the path, or the entry buffer under an established capacity > inline capacity, are handed to deallocate (never the inline buffer). R02.7: a block obtained from the allocator is committed only with a capacity that the path (with the header\'s asserts and the entry invariant capacity >= N) shows to exceed the inline capacity, so that it is recognised as an allocation and released later. R04.6: a heap buffer changes owner only together with its allocator or between containers whose allocators compared equal / are always equal.')
+        'operation; does not decide exact-once over whole histories. R04.5: only blocks obtained on the path, or the entry buffer under an established capacity > inline capacity, are handed to deallocate (never the inline buffer). R04.7: an exception leaving a constructor body after a callee installed a buffer / constructed elements in the object is preceded by the object\'s destructor (delegating constructor) or a release. R02.7: a block obtained from the allocator is committed only with a capacity that the path (with the header\'s asserts and the entry invariant capacity >= N) shows to exceed the inline capacity, so that it is recognised as an allocation and released later. R04.6: a heap buffer changes owner only together with its allocator or between containers whose allocators compared equal / are always equal.')
